@@ -415,29 +415,7 @@ func r04ValidationTemplates(c *an.Ctx) {
 			c.Failf("R04.3", "codegen.validationCode#"+kw, f.Decl.Pos(), "no template execute site found for keyword %s", kw)
 		}
 	}
-	// keyword blocks are independent: no keyword block is the else of another
-	var chained []string
-	info := f.Pkg.TypesInfo
-	hasSite := func(n ast.Node) bool {
-		if n == nil {
-			return false
-		}
-		for _, s := range sites {
-			if n.Pos() <= s.pos && s.pos <= n.End() {
-				return true
-			}
-		}
-		return false
-	}
-	_ = info
-	ast.Inspect(f.Decl.Body, func(n ast.Node) bool {
-		is, ok := n.(*ast.IfStmt)
-		if ok && is.Else != nil && hasSite(is.Body) && hasSite(is.Else) {
-			chained = append(chained, c.Position(is.Pos()))
-		}
-		return true
-	})
-	c.Check(len(chained) == 0, "R04.8", f.Name+"#independent-keywords", f.Decl.Pos(), "each validation keyword is emitted by its own if statement", "keyword blocks are chained with else at "+strings.Join(chained, ", ")+": when both keywords are present only the first is enforced")
+	keywordBlocksIndependent(c, "R04.8")
 }
 
 func r045Consumes(c *an.Ctx) {
@@ -983,4 +961,35 @@ func keywordVariantProblems(c *an.Ctx, tpl *an.Tpl) (probs []string, boundsSeen 
 		probs = append(probs, fmt.Sprintf("the template covers bounds %v, expected a lower and an upper one", sortedKeys(bounds)))
 	}
 	return dedupStrings(probs), sortedKeys(bounds), variants
+}
+
+// keywordBlocksIndependent: in validationCode every keyword that executes a
+// template sits in its own if statement; none is the else of another (else the
+// second keyword is silently not enforced when both are declared).
+func keywordBlocksIndependent(c *an.Ctx, rule string) {
+	f := c.MustFunc(rule, "codegen", "validationCode")
+	if f == nil {
+		return
+	}
+	sites := dataKeySites(c, f, templateVars(c, "codegen"))
+	hasSite := func(n ast.Node) bool {
+		if n == nil {
+			return false
+		}
+		for _, s := range sites {
+			if n.Pos() <= s.pos && s.pos <= n.End() {
+				return true
+			}
+		}
+		return false
+	}
+	var chained []string
+	ast.Inspect(f.Decl.Body, func(n ast.Node) bool {
+		is, ok := n.(*ast.IfStmt)
+		if ok && is.Else != nil && hasSite(is.Body) && hasSite(is.Else) {
+			chained = append(chained, c.Position(is.Pos()))
+		}
+		return true
+	})
+	c.Check(len(chained) == 0 && len(sites) >= 9, rule, f.Name+"#independent-keywords", f.Decl.Pos(), "each validation keyword (enum, format, pattern, bounds, lengths) is emitted by its own if statement", "keyword blocks are chained with else at "+strings.Join(chained, ", ")+": when both keywords are declared only the first is enforced")
 }
